@@ -592,6 +592,9 @@ public:
       if (head == m_entry) {
         new_pre |= m_init;
       }
+      if (m_assumptions && !m_assumptions->empty()) {
+        new_pre = strengthen(head, new_pre);
+      }
       crab::CrabStats::stop("Fixpo.join_predecessors");
       crab::CrabStats::resume("Fixpo.check_fixpoint");
       bool fixpoint_reached = new_pre <= pre;
@@ -628,6 +631,9 @@ public:
       }
       if (head == m_entry) {
         new_pre |= m_init;
+      }
+      if (m_assumptions && !m_assumptions->empty()) {
+        new_pre = strengthen(head, new_pre);
       }
       crab::CrabStats::stop("Fixpo.join_predecessors");
       crab::CrabStats::resume("Fixpo.check_fixpoint");
